@@ -15,11 +15,32 @@ import (
 
 type LenderAgent struct {
 	baseAgent
+	runAt int64
 }
 
 func (a *LenderAgent) Step(s *Sim) {
 	r := a.rng
 	rate := s.Cfg.rate("lender")
+	// bank run: once in some runs every lender asks for everything in the same block (the vault
+	// can pay only what is not lent out; what happens to the share price and to the books when
+	// the cash runs dry in the middle of a block?)
+	if a.runAt == 0 {
+		a.runAt = -1
+		if r.IntN(3) == 0 {
+			a.runAt = int64(20 + r.IntN(max(1, s.Cfg.Horizon-30)))
+		}
+	}
+	if s.Height == a.runAt {
+		shareDenom := stablestaketypes.GetShareDenom()
+		for _, u := range s.W.Users {
+			cm := s.N0.App.CommitmentKeeper.GetCommitments(s.Ctx(), u.Addr)
+			if have := cm.GetCommittedAmountForDenom(shareDenom); have.IsPositive() {
+				s.SendTx(u, "lender/bank_run", &stablestaketypes.MsgUnbond{Creator: u.Addr.String(), Amount: have})
+			}
+		}
+		s.Stats.Probe("vault_bank_run_submitted")
+		return
+	}
 	// make sure the vault has something early on
 	if s.Height < 6 {
 		rate = 1
